@@ -94,6 +94,20 @@ def gen(rng, n, tier="quick"):
             st, v = call(J.julianday, dt, calv)
             yield Case("julianday", "julianday_dt %s %s" % (I(wall_us(dt)), I(cal)),
                        FS(v) if st == "ok" else E(v), {"datetime": str(dt), "calendar": cal})
+            if 3 < d.year < 9997 and rng.random() < 0.6:
+                # the same instant spelled in two zones, one after the other: the Julian day is
+                # read from the wall-clock fields of each spelling (equal instants compare and
+                # hash equal, so a memo keyed on the argument would confuse them)
+                tz1 = datetime.timezone(datetime.timedelta(minutes=rng.randrange(-720, 841, 15)))
+                tz2 = datetime.timezone(datetime.timedelta(minutes=rng.randrange(-720, 841, 15)))
+                a = dt.replace(tzinfo=tz1)
+                for sp in (a, a.astimezone(tz2), a.astimezone(datetime.timezone.utc)):
+                    st, v = call(J.julianday, sp, calv)
+                    yield Case("julianday", "julianday_dt %s %s" % (I(wall_us(sp)), I(cal)),
+                               FS(v) if st == "ok" else E(v), {"datetime": str(sp), "calendar": cal})
+                    st, v = call(J.julianday_modified, sp)
+                    yield Case("julianday_modified", "julianday_modified %s" % I(wall_us(sp)),
+                               FS(v) if st == "ok" else E(v), {"datetime": str(sp)})
         elif k == 2:
             st, v = call(J.julianday_modified, dt)
             yield Case("julianday_modified", "julianday_modified %s" % I(wall_us(dt)),
